@@ -15,6 +15,8 @@ import (
 	"encoding/json"
 	"fmt"
 	"os"
+	"runtime"
+	"runtime/debug"
 	"sort"
 	"strconv"
 	"strings"
@@ -90,11 +92,17 @@ type Run struct {
 	// the target case has been run.
 	prefixIdx  int64
 	prefixDone bool
-	part       string
-	states     map[[16]byte]struct{}
-	perKey     map[string]int
-	idx        int64
-	nsamples   int
+
+	// detGC > 0 makes garbage collection deterministic: the collector is off
+	// and runs after every detGC-th case of a Part, so that sync.Pool contents
+	// evolve identically in the original run and in a prefix replay.
+	detGC    int
+	ranCase  int
+	part     string
+	states   map[[16]byte]struct{}
+	perKey   map[string]int
+	idx      int64
+	nsamples int
 
 	// expired is set by a timer goroutine started in Start, i.e. normally
 	// outside of any synctest bubble, so that the internal deadline follows
@@ -153,6 +161,10 @@ func Start(id string) (r *Run) {
 		time.Sleep(time.Duration(budget) * time.Second)
 		r.expired.Store(true)
 	}()
+	if n, _ := strconv.Atoi(os.Getenv("VERIF_DETGC")); n > 0 {
+		r.detGC = n
+		debug.SetGCPercent(-1)
+	}
 	if p := os.Getenv("VERIF_REPLAY"); p != "" {
 		data, err := os.ReadFile(p)
 		if err != nil {
@@ -354,6 +366,7 @@ func Part[C any](r *Run, name string, gen func(emit func(c C)), runCase func(c C
 				return
 			}
 			fs := runCase(c)
+			r.gcTick()
 			r.mu.Lock()
 			at := r.idx - 1
 			r.mu.Unlock()
@@ -404,6 +417,7 @@ func Part[C any](r *Run, name string, gen func(emit func(c C)), runCase func(c C
 		}
 		r.Eval()
 		fs := runCase(c)
+		r.gcTick()
 		r.Sample(c)
 		r.Report(name, c, fs)
 		if raw, err := json.Marshal(c); err == nil {
@@ -418,6 +432,17 @@ func Part[C any](r *Run, name string, gen func(emit func(c C)), runCase func(c C
 	r.mu.Lock()
 	r.recent = nil
 	r.mu.Unlock()
+}
+
+// gcTick runs the collector at deterministic points when VERIF_DETGC is set.
+func (r *Run) gcTick() {
+	if r.detGC <= 0 {
+		return
+	}
+	r.ranCase++
+	if r.ranCase%r.detGC == 0 {
+		runtime.GC()
+	}
 }
 
 // ReplayPart reports whether part name should run: always in normal mode, and
